@@ -40,10 +40,11 @@ const (
 	eReuse                // one Decorator parses a good file, then the faulted one
 	eDecorateFile         // go/parser first, then decorator.DecorateFile on whatever it returned
 	eParseDir             // decorator.ParseDir on a scratch directory holding the faulted bytes
+	eDecorateNodes        // go/parser first, then decorator.Decorate on every top-level declaration separately
 	numEntries
 )
 
-var entryNames = [...]string{"Parse", "ParseFile", "managed(goast.New)", "managed(goast/guess)", "reused-Decorator", "DecorateFile", "ParseDir"}
+var entryNames = [...]string{"Parse", "ParseFile", "managed(goast.New)", "managed(goast/guess)", "reused-Decorator", "DecorateFile", "ParseDir", "Decorate(each decl)"}
 
 func managed(e int) bool { return e == eManagedGoast || e == eManagedGuess }
 
@@ -364,6 +365,24 @@ func parseVia(c evalCfg, src interface{}, data []byte) parseResult {
 			err = perr
 		}
 		return one(f, err, fset)
+	case eDecorateNodes:
+		af, perr := parser.ParseFile(fset, "f.go", src, c.mode|parser.ParseComments)
+		if af == nil {
+			return parseResult{err: perr, fset: fset}
+		}
+		// isolated nodes: no file-level comment / newline discovery, and nothing to print;
+		// the obligation is only that none of the calls panics and each returns a node or an error
+		for _, d := range af.Decls {
+			n, err := decorator.Decorate(fset, d)
+			if n == nil && err == nil {
+				return parseResult{fset: fset} // reported as neither-tree-nor-error
+			}
+		}
+		f, err := decorator.DecorateFile(fset, af)
+		if err == nil {
+			err = perr
+		}
+		return one(f, err, fset)
 	case eParseDir:
 		dir, err := ioutil.TempDir("", "dstsim-c15-")
 		if err != nil {
@@ -475,6 +494,19 @@ func printAll(run *core.Run, f *dst.File, c evalCfg, prefix, name string, data [
 		}
 		if err == nil && (af == nil || fset == nil) {
 			run.Fail("c15/print/no-output-no-error", prefix+"|RestoreFile", "RestoreFile returned neither a file nor an error")
+			return
+		}
+	}
+	{
+		// a Restorer whose FileSet the caller supplied and which already holds other files
+		w := &faults.Writer{FailAt: -1}
+		var err error
+		pi := core.Catch(func() {
+			r := decorator.NewRestorer()
+			r.Fset = newFset(true)
+			err = r.Fprint(w, f)
+		})
+		if !check("Restorer(caller Fset).Fprint", w, err, pi) {
 			return
 		}
 	}
